@@ -217,7 +217,7 @@ Proof.
   - destruct (g_req_s g_alg jwk) as [a|]; [|discriminate].
     destruct (g_opt_s g_kty jwk) eqn:K; destruct (g_opt_I g_bytes 0 jwk) as [byt|]; try discriminate;
       destruct (g_alg2len t a =? 0)%Z; try discriminate;
-      destruct (negb (byt =? 0)%Z && negb (byt =? g_alg2len t a)%Z); try discriminate;
+      destruct (g_has g_bytes jwk && negb (byt =? g_alg2len t a)%Z); try discriminate;
       try (destruct (g_other (GStr s) g_oct); try discriminate);
       intro H; apply g_set2_spec in H; try discriminate;
       destruct H as (O & O' & ND & _ & _ & F); (split; [exact O|]; split; [exact O'|]; split; [exact ND|]);
@@ -692,11 +692,11 @@ Definition g_agrees (k want : bytes) (t : json) : bool :=
   | Some _ => false
   end.
 
-(* "absent, or the integer 0 (the C default), or the integer L" *)
+(* "absent, or the integer L" *)
 Definition g_bytes_agree (L : Z) (t : json) : bool :=
   match lookup g_bytes t with
   | None => true
-  | Some (JInt z) => (z =? 0)%Z || (z =? L)%Z
+  | Some (JInt z) => (z =? L)%Z
   | Some _ => false
   end.
 
@@ -779,18 +779,18 @@ Proof.
                  lookup g_crv j1 = alookup g_crv m).
     { intros _ S2. apply g_set2_spec in S2; [|discriminate]. destruct S2 as (_ & _ & _ & K1 & K2 & F2).
       split; [exact K1|]. split; [exact K2|]. apply (F2 g_crv); discriminate. }
+    unfold g_has in E. cbn [lookup] in E.
     destruct (alookup g_kty m) as [[| | | |s| |]|] eqn:K; try discriminate;
       destruct (alookup g_bytes m) as [[| |bz| | | |]|] eqn:B; try discriminate; cbn [negb andb] in E.
-    + destruct (negb (bz =? 0)%Z && negb (bz =? g_alg2len tb a)%Z) eqn:Bz; [discriminate|].
+    + destruct (negb (bz =? g_alg2len tb a)%Z) eqn:Bz; [discriminate|].
       unfold g_other in E. destruct (bytes_eqb (cstr s) g_oct) eqn:Ks; [|discriminate]. cbn [negb] in E.
       destruct (S2 tt E) as (K1 & K2 & K3). fin_po.
     + unfold g_other in E. destruct (bytes_eqb (cstr s) g_oct) eqn:Ks; [|discriminate]. cbn [negb] in E.
-      change ((0 =? 0)%Z) with true in E. cbn [negb andb] in E.
       destruct (S2 tt E) as (K1 & K2 & K3). fin_po.
-    + destruct (negb (bz =? 0)%Z && negb (bz =? g_alg2len tb a)%Z) eqn:Bz; [discriminate|].
+    + destruct (negb (bz =? g_alg2len tb a)%Z) eqn:Bz; [discriminate|].
       cbn [g_other] in E.
       destruct (S2 tt E) as (K1 & K2 & K3). fin_po.
-    + change ((0 =? 0)%Z) with true in E. cbn [negb andb g_other] in E.
+    + cbn [g_other] in E.
       destruct (S2 tt E) as (K1 & K2 & K3). fin_po.
   - (* ecdsa / ecdhes *)
     destruct (alookup a tb) as [grp|] eqn:G; [|discriminate].
@@ -920,13 +920,16 @@ Definition all_touched : list bytes :=
 
 Lemma jwk_gen_stages X t k :
   jwk_gen X t = Some k ->
-  exists j1 j2 h,
+  exists j1 j2 j3 j4 h,
     gen_prep t = Some j1 /\ g_req_s g_kty j1 = Some (g_make_kty h) /\
-    g_make_execute X h j1 = Some j2 /\ gen_post j2 = Some k.
+    g_make_execute X h j1 = Some j2 /\
+    g_del_present g_bytes j2 = Some j3 /\ g_del_present g_bits j3 = Some j4 /\ gen_post j4 = Some k.
 Proof.
   unfold jwk_gen. destruct (gen_prep t) as [j1|] eqn:P; [|discriminate].
-  destruct (gen_make X j1) as [j2|] eqn:M; [|discriminate]. intro Q.
-  apply gen_make_inv in M as (h & T & M). exists j1, j2, h. auto.
+  destruct (gen_make X j1) as [j2|] eqn:M; [|discriminate].
+  destruct (g_del_present g_bytes j2) as [j3|] eqn:D1; [|discriminate].
+  destruct (g_del_present g_bits j3) as [j4|] eqn:D2; [|discriminate]. intro Q.
+  apply gen_make_inv in M as (h & T & M). exists j1, j2, j3, j4, h. auto 10.
 Qed.
 
 Lemma make_frame X h j1 j2 :
@@ -952,12 +955,13 @@ Lemma gen_master X t k :
     g_req_s g_kty j1 = Some (g_make_kty h) /\
     g_make_execute X h j1 = Some j2 /\ is_object j2 = true /\ nodup_keys j2 /\
     (forall key, ~ In key (make_touched h) -> lookup key j2 = lookup key j1) /\
-    gen_post j2 = Some k /\ is_object k = true /\ nodup_keys k /\
+    (g_opt_s g_alg k <> GBad /\ g_opt_s g_use k <> GBad /\ lookup g_bytes k = None /\ lookup g_bits k = None) /\
+    is_object k = true /\ nodup_keys k /\
     g_req_s g_kty k = Some (g_make_kty h) /\
-    (forall key, key <> g_key_ops -> lookup key k = lookup key j2) /\
+    (forall key, key <> g_key_ops -> key <> g_bytes -> key <> g_bits -> lookup key k = lookup key j2) /\
     lookup g_key_ops k = g_final_key_ops j2.
 Proof.
-  intros G ND WF. apply jwk_gen_stages in G as (j1 & j2 & h & P & T & M & Q).
+  intros G ND WF. apply jwk_gen_stages in G as (j1 & j2 & j3 & j4 & h & P & T & M & D1 & D2 & Q).
   pose proof (g_req_s_obj _ _ _ T) as O1.
   assert (O : is_object t = true).
   { pose proof (prep_outcome _ _ P) as PO. destruct (g_req_s g_alg t) as [a|] eqn:A.
@@ -965,13 +969,27 @@ Proof.
     - subst j1. exact O1. }
   destruct (gen_prep_frame _ _ P) as (_ & ND1 & _). specialize (ND1 ND).
   destruct (make_frame _ _ _ _ M ND1 WF) as (O2 & ND2 & F2).
-  destruct (gen_post_inv _ _ Q) as (kty & T2 & _ & _ & Ok & NDk & Fk & KO & _).
+  destruct (g_del_present_spec _ _ _ D1 O2 ND2) as (O3 & ND3 & B3 & F3).
+  destruct (g_del_present_spec _ _ _ D2 O3 ND3) as (O4 & ND4 & B4 & F4).
+  destruct (gen_post_inv _ _ Q) as (kty & T2 & A4 & U4 & Ok & NDk & Fk & KO & _).
+  assert (F42 : forall key, key <> g_bytes -> key <> g_bits -> lookup key j4 = lookup key j2).
+  { intros key N1 N2. rewrite F4 by congruence. apply F3. congruence. }
+  assert (Fk2 : forall key, key <> g_key_ops -> key <> g_bytes -> key <> g_bits -> lookup key k = lookup key j2).
+  { intros key N0 N1 N2. rewrite Fk by exact N0. apply F42; assumption. }
   exists j1, j2, h. repeat (split; [assumption|]).
-  split; [auto|]. split.
+  split; [|split; [exact Ok|split; [auto|split; [|split; [exact Fk2|]]]]].
+  - split; [|split; [|split]].
+    + rewrite (g_opt_s_congr g_alg j4 k O4 Ok) by (apply Fk; discriminate). exact A4.
+    + rewrite (g_opt_s_congr g_use j4 k O4 Ok) by (apply Fk; discriminate). exact U4.
+    + rewrite Fk by discriminate. rewrite F4 by discriminate. exact B3.
+    + rewrite Fk by discriminate. exact B4.
   - rewrite <- T. transitivity (g_req_s g_kty j2).
-    + apply g_req_s_congr; try assumption. apply Fk. discriminate.
+    + apply g_req_s_congr; try assumption. apply Fk2; discriminate.
     + apply g_req_s_congr; try assumption. apply F2. apply kty_not_touched.
-  - split; assumption.
+  - rewrite KO. unfold g_final_key_ops.
+    rewrite (g_opt_s_congr g_alg j2 j4 O2 O4) by (apply F42; discriminate).
+    rewrite (g_opt_s_congr g_use j2 j4 O2 O4) by (apply F42; discriminate).
+    rewrite (F42 g_key_ops) by discriminate. reflexivity.
 Qed.
 
 Section Theorems.
@@ -981,14 +999,15 @@ Section Theorems.
   Lemma not_in_app {A} (x : A) l1 l2 : ~ In x (l1 ++ l2) -> ~ In x l1 /\ ~ In x l2.
   Proof. intro H. split; intro I; apply H; apply in_or_app; auto. Qed.
 
-  Lemma all_touched_covers key h : ~ In key all_touched -> ~ In key prep_touched /\ ~ In key (make_touched h) /\ key <> g_key_ops.
+  Lemma all_touched_covers key h : ~ In key all_touched ->
+    ~ In key prep_touched /\ ~ In key (make_touched h) /\ (key <> g_key_ops /\ key <> g_bytes /\ key <> g_bits).
   Proof.
     unfold all_touched. intro H.
     apply not_in_app in H as [H1 H]. apply not_in_app in H as [H2 H]. apply not_in_app in H as [H3 H].
     apply not_in_app in H as [H4 H5].
     split; [exact H1|]. split.
     - destruct h; cbn [make_touched]; unfold rsa_touched, oct_touched, ec_touched, g_ec_members; simpl in *; intuition congruence.
-    - simpl in H5. intuition congruence.
+    - unfold prep_touched in H1. simpl in H1, H2, H5. intuition congruence.
   Qed.
 
   (* members the generator has no business with are left exactly as given *)
@@ -998,9 +1017,9 @@ Section Theorems.
   Proof.
     intros G ND key Hk.
     destruct (gen_master X t k G ND rand_wf) as (j1 & j2 & h & P & O & O1 & ND1 & T & M & O2 & ND2 & F2 & Q & Ok & NDk & Tk & Fk & KO).
-    destruct (all_touched_covers key h Hk) as (H1 & H2 & H3).
+    destruct (all_touched_covers key h Hk) as (H1 & H2 & H3 & H4 & H5).
     destruct (gen_prep_frame _ _ P) as (_ & _ & F1).
-    rewrite Fk by exact H3. rewrite F2 by exact H2. apply F1. exact H1.
+    rewrite Fk by assumption. rewrite F2 by exact H2. apply F1. exact H1.
   Qed.
 
   Lemma alg_use_ops_kept t k :
@@ -1044,7 +1063,7 @@ Section Theorems.
     exists kty ty, g_req_s g_kty k = Some kty /\ In ty jwk_types /\ t_kty ty = kty /\
                    forall r, In r (t_req ty) -> lookup r k <> None.
   Proof.
-    intro G. apply jwk_gen_stages in G as (j1 & j2 & h & P & T & M & Q).
+    intro G. apply jwk_gen_stages in G as (j1 & j2 & j3 & j4 & h & P & T & M & D1 & D2 & Q).
     destruct (gen_post_inv _ _ Q) as (kty & T2 & _ & _ & Ok & _ & Fk & _ & R).
     apply required_present_inv in R as (ty & I & E & Rq).
     exists kty, ty. split; [|auto].
@@ -1149,7 +1168,7 @@ Section PerType.
       + subst j1. rewrite B. reflexivity.
     - cbv zeta. split; [rewrite Fk by discriminate; exact K|].
       split; [apply dec_enc; apply wf_take; exact rand_wf|].
-      split; [rewrite take_length; lia|]. rewrite Fk by discriminate. exact B2.
+      split; [rewrite take_length; lia|]. exact (proj1 (proj2 (proj2 Q))).
   Qed.
 
   (* ---- RSA ---- *)
@@ -1163,24 +1182,22 @@ Section PerType.
 
   Lemma g_rsa_request_ok j bits e :
     g_rsa_request j = Some (bits, e) ->
-    (2048 <= bits < 2147483648)%Z /\ g_check_public_exponent e = true.
+    (2048 <= bits <= g_rsa_max_bits)%Z /\ g_check_public_exponent e = true.
   Proof.
     unfold g_rsa_request. destruct j; try discriminate.
     destruct (match alookup g_bits m with
-              | Some (JInt z) => Some (g_to_int z) | None => Some 2048%Z | _ => None end) as [b|] eqn:B; [|discriminate].
-    destruct (b <? 2048)%Z eqn:Lb; [discriminate|].
+              | Some (JInt z) => Some z | None => Some 2048%Z | _ => None end) as [b|] eqn:B; [|discriminate].
+    destruct ((b <? 2048)%Z || (g_rsa_max_bits <? b)%Z) eqn:Lb; [discriminate|].
     destruct (match match alookup g_e m with Some v => v | None => JInt 65537 end with
-              | JInt z => Some (g_to_ulong z) | JStr _ => _ | _ => None end) as [e'|]; [|discriminate].
+              | JInt z => _ | JStr _ => _ | _ => None end) as [e'|]; [|discriminate].
     destruct (g_check_public_exponent e') eqn:C; [|discriminate].
-    intro H; inversion H; subst. split; [|exact C]. split; [lia|].
-    destruct (alookup g_bits m) as [[]|]; try discriminate; inversion B; subst; [|lia].
-    unfold g_to_int. pose proof (Z.mod_pos_bound (z + 2147483648) 4294967296). lia.
+    intro H; inversion H; subst. split; [lia|exact C].
   Qed.
 
   Theorem gen_rsa_members t k :
     jwk_gen X t = Some k -> nodup_keys t -> g_req_s g_kty k = Some g_RSA ->
     exists bits e rk,
-      g_rsa_request t = Some (bits, e) /\ (2048 <= bits)%Z /\ g_check_public_exponent e = true /\
+      g_rsa_request t = Some (bits, e) /\ (2048 <= bits <= g_rsa_max_bits)%Z /\ g_check_public_exponent e = true /\
       x_rsa X bits e = Some rk /\
       (forall m x, In (m, x) (g_rsa_fields rk) ->
          exists jm, lookup m k = Some jm /\ g_bn_decode_json jm = Some x /\
@@ -1196,13 +1213,13 @@ Section PerType.
     { rewrite <- Rq. symmetry. apply g_rsa_request_congr; try assumption; apply F1; unfold prep_touched; simpl;
         intros [E|[E|[E|[]]]]; discriminate. }
     destruct (g_rsa_request_ok _ _ _ Rq) as (Rb & Ce).
-    exists bits, e, rk. split; [exact Rt|]. split; [lia|]. split; [exact Ce|]. split; [exact Gk|]. split.
+    exists bits, e, rk. split; [exact Rt|]. split; [exact Rb|]. split; [exact Ce|]. split; [exact Gk|]. split.
     - intros m x Hm. destruct (Mem m x Hm) as (jm & L & En).
       exists jm. split.
-      + rewrite Fk; [exact L|]. unfold g_rsa_fields in Hm. simpl in Hm.
-        intro E; subst m. repeat (destruct Hm as [Hm|Hm]; [discriminate|]). exact Hm.
+      + unfold g_rsa_fields in Hm. simpl in Hm.
+        rewrite Fk; [exact L| | |]; intro E; subst m; repeat (destruct Hm as [Hm|Hm]; [discriminate|]); exact Hm.
       + destruct (g_bn_roundtrip _ _ _ En) as (D & b & -> & Db & W & V). split; [exact D|]. exists b. auto.
-    - rewrite Fk by discriminate. exact B2.
+    - exact (proj2 (proj2 (proj2 Q))).
   Qed.
 
   (* ---- EC ---- *)
@@ -1253,8 +1270,8 @@ Section PerType.
     - intros m x Hm. destruct (Mem m x Hm) as (jm & L & En).
       destruct (g_bn_roundtrip _ _ _ En) as (D & b & -> & Db & W & V).
       exists b. split.
-      + rewrite Fk; [exact L|]. unfold g_ec_fields in Hm. simpl in Hm.
-        intro E; subst m. repeat (destruct Hm as [Hm|Hm]; [discriminate|]). exact Hm.
+      + unfold g_ec_fields in Hm. simpl in Hm.
+        rewrite Fk; [exact L| | |]; intro E; subst m; repeat (destruct Hm as [Hm|Hm]; [discriminate|]); exact Hm.
       + split; [exact Db|]. split; [|exact V]. rewrite W. unfold g_width. destruct c; reflexivity.
   Qed.
 End PerType.
@@ -1296,19 +1313,19 @@ Proof.
   apply public_exponent_rule in C as [->|(C & _)]; [discriminate|congruence].
 Qed.
 
-(* what mkrsa reads from "bits": the int the value narrows to *)
+(* what mkrsa reads from "bits": the 64-bit value itself ("I" format) *)
 Definition g_bits_read (t : json) : option Z :=
   match lookup g_bits t with
   | None => Some 2048%Z
-  | Some (JInt z) => Some (g_to_int z)
+  | Some (JInt z) => Some z
   | Some _ => None
   end.
 
-(* the public exponent mkrsa hands to OpenSSL *)
+(* the public exponent mkrsa hands to OpenSSL; a negative integer is refused *)
 Definition g_exp_read (t : json) : option N :=
   match lookup g_e t with
   | None => Some 65537
-  | Some (JInt z) => Some (g_to_ulong z)
+  | Some (JInt z) => if (z <? 0)%Z then None else Some (g_to_ulong z)
   | Some (JStr s) => g_bn_decode_json (JStr s)
   | Some _ => None
   end.
@@ -1319,7 +1336,7 @@ Lemma g_rsa_request_flat t :
     match g_bits_read t with
     | None => None
     | Some bits =>
-        if (bits <? 2048)%Z then None
+        if (bits <? 2048)%Z || (g_rsa_max_bits <? bits)%Z then None
         else match g_exp_read t with
              | Some e => if g_check_public_exponent e then Some (bits, e) else None
              | None => None
@@ -1328,7 +1345,7 @@ Lemma g_rsa_request_flat t :
 Proof.
   destruct t; try discriminate. intros _. unfold g_rsa_request, g_bits_read, g_exp_read. cbn [lookup].
   destruct (alookup g_bits m) as [[]|]; try reflexivity;
-    match goal with |- context [(?b <? 2048)%Z] => destruct (b <? 2048)%Z; try reflexivity end;
+    match goal with |- context [(?b <? 2048)%Z || _] => destruct ((b <? 2048)%Z || (g_rsa_max_bits <? b)%Z); try reflexivity end;
     destruct (alookup g_e m) as [[]|]; reflexivity.
 Qed.
 
@@ -1338,7 +1355,7 @@ Proof. destruct t; try discriminate. reflexivity. Qed.
 Lemma g_rsa_request_bits t bits e : g_rsa_request t = Some (bits, e) -> g_bits_read t = Some bits.
 Proof.
   intro H. pose proof (g_rsa_request_obj _ _ H) as O. rewrite g_rsa_request_flat in H by exact O.
-  destruct (g_bits_read t) as [b|]; [|discriminate]. destruct (b <? 2048)%Z; [discriminate|].
+  destruct (g_bits_read t) as [b|]; [|discriminate]. destruct ((b <? 2048)%Z || (g_rsa_max_bits <? b)%Z); [discriminate|].
   destruct (g_exp_read t) as [e'|]; [|discriminate]. destruct (g_check_public_exponent e'); [|discriminate].
   inversion H; reflexivity.
 Qed.
@@ -1346,21 +1363,36 @@ Qed.
 Lemma g_rsa_request_exp t bits e : g_rsa_request t = Some (bits, e) -> g_exp_read t = Some e.
 Proof.
   intro H. pose proof (g_rsa_request_obj _ _ H) as O. rewrite g_rsa_request_flat in H by exact O.
-  destruct (g_bits_read t) as [b|]; [|discriminate]. destruct (b <? 2048)%Z; [discriminate|].
+  destruct (g_bits_read t) as [b|]; [|discriminate]. destruct ((b <? 2048)%Z || (g_rsa_max_bits <? b)%Z); [discriminate|].
   destruct (g_exp_read t) as [e'|]; [|discriminate]. destruct (g_check_public_exponent e'); [|discriminate].
   inversion H; reflexivity.
 Qed.
 
-Lemma g_to_int_id z : (-2147483648 <= z < 2147483648)%Z -> g_to_int z = z.
-Proof. intro R. unfold g_to_int. rewrite Z.mod_small by lia. lia. Qed.
-
-(* a size under 2048 (as an int) is refused *)
-Theorem rsa_small_bits_rejected t z :
-  lookup g_bits t = Some (JInt z) -> (g_to_int z < 2048)%Z -> g_rsa_request t = None.
+(* the size is the 64-bit value of "bits": under 2048 or over OPENSSL_RSA_MAX_MODULUS_BITS is refused *)
+Theorem rsa_bits_out_of_range_rejected t z :
+  lookup g_bits t = Some (JInt z) -> (z < 2048 \/ g_rsa_max_bits < z)%Z -> g_rsa_request t = None.
 Proof.
   intros B L. destruct (g_rsa_request t) as [[bits e]|] eqn:R; [|reflexivity].
   pose proof (g_rsa_request_bits _ _ _ R) as Rb. unfold g_bits_read in Rb. rewrite B in Rb. inversion Rb; subst.
   apply g_rsa_request_ok in R as [R _]. lia.
+Qed.
+
+(* an integer exponent reaches OpenSSL as the number it is (json_int_t is below 2^63); a negative one is refused *)
+Theorem rsa_int_exponent_as_requested t z bits e :
+  lookup g_e t = Some (JInt z) -> (z < 18446744073709551616)%Z -> g_rsa_request t = Some (bits, e) ->
+  (0 <= z)%Z /\ e = Z.to_N z.
+Proof.
+  intros E Hi R. apply g_rsa_request_exp in R. unfold g_exp_read in R. rewrite E in R.
+  destruct (z <? 0)%Z eqn:Neg; [discriminate|]. inversion R. split; [lia|].
+  unfold g_to_ulong. rewrite Z.mod_small by lia. reflexivity.
+Qed.
+
+Theorem rsa_negative_exponent_rejected t z :
+  lookup g_e t = Some (JInt z) -> (z < 0)%Z -> g_rsa_request t = None.
+Proof.
+  intros E Neg. destruct (g_rsa_request t) as [[bits e]|] eqn:R; [|reflexivity].
+  apply g_rsa_request_exp in R. unfold g_exp_read in R. rewrite E in R.
+  replace (z <? 0)%Z with true in R by lia. discriminate.
 Qed.
 
 (* ------------------------------------------------------------------------------------------------ *)
@@ -1425,12 +1457,10 @@ Section Accept.
     intros G ND.
     destruct (gen_master X t k G ND rand_wf) as (j1 & j2 & h & P & O & O1 & ND1 & T & M & O2 & ND2 & F2 & Q & Ok & NDk & Tk & Fk & KO).
     destruct (alg_use_ops_kept X rand_wf t k G ND) as (_ & Ak & Uk & _).
-    destruct (gen_post_inv _ _ Q) as (kty & _ & A2 & U2 & _ & _ & Fk' & _ & _).
-    assert (Ak2 : g_opt_s g_alg k = g_opt_s g_alg j2) by (apply g_opt_s_congr; try assumption; apply Fk; discriminate).
-    assert (Uk2 : g_opt_s g_use k = g_opt_s g_use j2) by (apply g_opt_s_congr; try assumption; apply Fk; discriminate).
-    unfold g_template_ok. rewrite O, <- Ak, Ak2, <- Uk, Uk2.
-    replace (g_not_bad (g_opt_s g_alg j2)) with true by (destruct (g_opt_s g_alg j2); try reflexivity; contradiction).
-    replace (g_not_bad (g_opt_s g_use j2)) with true by (destruct (g_opt_s g_use j2); try reflexivity; contradiction).
+    destruct Q as (A2 & U2 & _ & _).
+    unfold g_template_ok. rewrite O, <- Ak, <- Uk.
+    replace (g_not_bad (g_opt_s g_alg k)) with true by (destruct (g_opt_s g_alg k); try reflexivity; contradiction).
+    replace (g_not_bad (g_opt_s g_use k)) with true by (destruct (g_opt_s g_use k); try reflexivity; contradiction).
     rewrite (prep_consistent _ _ P). cbn [andb].
     assert (KR : g_kty_request t = Some h).
     { pose proof (prep_kty _ _ _ P T) as PK. unfold g_kty_request.
@@ -1655,10 +1685,12 @@ Section OpenSSL.
   Theorem gen_rsa_consistent t k :
     jwk_gen X t = Some k -> nodup_keys t -> g_req_s g_kty k = Some g_RSA ->
     exists bits e rk,
-      g_bits_read t = Some bits /\ (2048 <= bits)%Z /\ g_exp_read t = Some e /\
+      g_bits_read t = Some bits /\ (2048 <= bits <= g_rsa_max_bits)%Z /\ g_exp_read t = Some e /\
       (e = 3 \/ (N.odd e = true /\ 2 ^ 16 <= e < 2 ^ 256)) /\
       (forall m x, In (m, x) (g_rsa_fields rk) -> g_member_num m k = Some x) /\
-      g_rsa_good bits e rk /\ (2048 <= Z.of_N (N.size (rk_n rk)))%Z /\
+      g_rsa_good bits e rk /\
+      (2048 <= Z.of_N (N.size (rk_n rk)) <= bits)%Z /\
+      (Z.even bits = true -> Z.of_N (N.size (rk_n rk)) = bits) /\
       lookup g_bits k = None.
   Proof.
     intros G ND T.
@@ -1666,9 +1698,11 @@ Section OpenSSL.
     pose proof (openssl_rsa _ _ _ Gk) as Good.
     exists bits, e, rk. split; [eapply g_rsa_request_bits; eauto|]. split; [exact B|].
     split; [eapply g_rsa_request_exp; eauto|]. split; [apply public_exponent_rule; exact C|].
-    split; [|split; [exact Good|split; [|exact NB]]].
+    split; [|split; [exact Good|split; [|split; [|exact NB]]]].
     - intros m x Hm. destruct (Mem m x Hm) as (jm & L & D & _). unfold g_member_num. rewrite L. exact D.
     - destruct Good as (_ & S & _). rewrite S. pose proof (Z.div_mod bits 2). pose proof (Z.mod_pos_bound bits 2). lia.
+    - destruct Good as (_ & S & _). rewrite S. intro Ev. apply Z.even_spec in Ev. destruct Ev as [h ->].
+      replace (2 * h / 2)%Z with h by (rewrite Z.mul_comm, Z.div_mul by discriminate; reflexivity). lia.
   Qed.
 
   Theorem gen_ec_valid t k :
@@ -1705,86 +1739,32 @@ Section Gone.
   Variable X : g_ext.
   Hypothesis rand_wf : wf_bytes (x_rand X).
 
-  (* what the code does delete: "bytes" from an oct key, "bits" from an RSA key *)
+  (* generation-only members are gone from EVERY generated key, whatever its type *)
   Theorem gen_members_gone t k :
-    jwk_gen X t = Some k -> nodup_keys t ->
-    (g_req_s g_kty k = Some g_oct -> lookup g_bytes k = None) /\
-    (g_req_s g_kty k = Some g_RSA -> lookup g_bits k = None).
+    jwk_gen X t = Some k -> nodup_keys t -> lookup g_bytes k = None /\ lookup g_bits k = None.
   Proof.
-    intros G ND. split; intro T.
-    - destruct (gen_oct_exact X rand_wf t k G ND T) as (len & _ & _ & _ & _ & _ & H). exact H.
-    - destruct (gen_rsa_members X rand_wf t k G ND T) as (? & ? & ? & _ & _ & _ & _ & _ & H). exact H.
+    intros G ND.
+    destruct (gen_master X t k G ND rand_wf) as (j1 & j2 & h & _ & _ & _ & _ & _ & _ & _ & _ & _ & Q & _).
+    destruct Q as (_ & _ & B1 & B2). auto.
+  Qed.
+
+  (* a "bytes" member that is not exactly the algorithm's size is a contradiction (0 included) *)
+  Theorem gen_bytes_contradict_alg_rejected t a L v :
+    nodup_keys t -> g_req_s g_alg t = Some a -> g_alg_implies a = Some (IOct L) ->
+    lookup g_bytes t = Some v -> v <> JInt L -> jwk_gen X t = None.
+  Proof.
+    intros ND A AI B NV. apply (gen_contradictory_rejected X rand_wf t ND).
+    unfold g_consistent_with_alg. rewrite A, AI. unfold g_bytes_agree. rewrite B.
+    destruct v; try (rewrite andb_false_r; reflexivity).
+    destruct (z =? L)%Z eqn:E; [|rewrite andb_false_r; reflexivity].
+    apply Z.eqb_eq in E. subst. contradiction.
   Qed.
 End Gone.
 
 (* ------------------------------------------------------------------------------------------------ *)
-(* where the current code falls short of the property (closed witnesses) *)
+(* where the current code still falls short of the property (closed witness) *)
 
 Definition JS (s : bytes) : json := JStr s.
-
-(* {"alg":"HS256","bits":2048}: accepted, and "bits" is still in the oct key *)
-Definition g_w_bits_in_oct : json := JObj [(g_alg, JS ga_HS256); (g_bits, JInt 2048)].
-(* {"kty":"EC","crv":"P-256","bytes":5,"bits":7}: both survive in the EC key *)
-Definition g_w_both_in_ec : json := JObj [(g_kty, JS g_EC); (g_crv, JS g_P256); (g_bytes, JInt 5); (g_bits, JInt 7)].
-(* {"kty":"RSA","bytes":16}: "bytes" survives in the RSA key *)
-Definition g_w_bytes_in_rsa : json := JObj [(g_kty, JS g_RSA); (g_bytes, JInt 16)].
-
-Theorem generation_members_survive :
-  exists X t k, wf_bytes (x_rand X) /\ nodup_keys t /\ jwk_gen X t = Some k /\
-                g_req_s g_kty k = Some g_oct /\ lookup g_bits k <> None.
-Proof.
-  exists g_demo_ext, g_w_bits_in_oct.
-  eexists. split; [apply wf_bytesb_spec; vm_compute; reflexivity|].
-  split; [apply nodupb_spec; vm_compute; reflexivity|].
-  split; [vm_compute; reflexivity|]. split; [vm_compute; reflexivity|]. vm_compute. discriminate.
-Qed.
-
-Theorem generation_members_survive_ec :
-  exists X t k, wf_bytes (x_rand X) /\ nodup_keys t /\ jwk_gen X t = Some k /\
-                g_req_s g_kty k = Some g_EC /\ lookup g_bits k <> None /\ lookup g_bytes k <> None.
-Proof.
-  exists g_demo_ext, g_w_both_in_ec.
-  eexists. split; [apply wf_bytesb_spec; vm_compute; reflexivity|].
-  split; [apply nodupb_spec; vm_compute; reflexivity|].
-  split; [vm_compute; reflexivity|]. split; [vm_compute; reflexivity|]. split; vm_compute; discriminate.
-Qed.
-
-Theorem generation_members_survive_rsa :
-  exists X t k, wf_bytes (x_rand X) /\ nodup_keys t /\ jwk_gen X t = Some k /\
-                g_req_s g_kty k = Some g_RSA /\ lookup g_bytes k <> None.
-Proof.
-  exists g_demo_ext, g_w_bytes_in_rsa.
-  eexists. split; [apply wf_bytesb_spec; vm_compute; reflexivity|].
-  split; [apply nodupb_spec; vm_compute; reflexivity|].
-  split; [vm_compute; reflexivity|]. split; [vm_compute; reflexivity|]. vm_compute; discriminate.
-Qed.
-
-(* {"kty":"RSA","bits":4294969344}: 2^32 + 2048 bits are asked for, OpenSSL is asked for 2048 *)
-Theorem rsa_bits_narrowed :
-  exists t z, lookup g_bits t = Some (JInt z) /\ (z > 4294967296)%Z /\ g_rsa_request t = Some (2048%Z, 65537).
-Proof.
-  exists (JObj [(g_kty, JS g_RSA); (g_bits, JInt 4294969344)]), 4294969344%Z.
-  split; [reflexivity|]. split; [reflexivity|]. vm_compute. reflexivity.
-Qed.
-
-(* {"kty":"RSA","e":-1}: a negative exponent is asked for, OpenSSL is asked for 2^64 - 1 *)
-Theorem rsa_negative_exponent :
-  exists t z, lookup g_e t = Some (JInt z) /\ (z < 0)%Z /\ g_rsa_request t = Some (2048%Z, 18446744073709551615).
-Proof.
-  exists (JObj [(g_kty, JS g_RSA); (g_e, JInt (-1))]), (-1)%Z.
-  split; [reflexivity|]. split; [reflexivity|]. vm_compute. reflexivity.
-Qed.
-
-(* {"alg":"HS256","bytes":0}: zero octets are asked for (a size that disagrees with the algorithm), 32 are made *)
-Theorem bytes_zero_with_alg_accepted :
-  exists X t k, wf_bytes (x_rand X) /\ nodup_keys t /\ lookup g_bytes t = Some (JInt 0) /\
-                jwk_gen X t = Some k /\ g_oct_request t = Some 32%Z.
-Proof.
-  exists g_demo_ext, (JObj [(g_alg, JS ga_HS256); (g_bytes, JInt 0)]).
-  eexists. split; [apply wf_bytesb_spec; vm_compute; reflexivity|].
-  split; [apply nodupb_spec; vm_compute; reflexivity|].
-  split; [reflexivity|]. split; vm_compute; reflexivity.
-Qed.
 
 (* "dir": the inferred key_ops are those of a key-wrapping algorithm, but "dir" itself checks encrypt/decrypt *)
 Theorem dir_key_ops_do_not_grant_dir :
@@ -1813,9 +1793,9 @@ Proof.
     destruct t as [| | | | | |m]; try discriminate. cbn [lookup] in *.
     apply negb_true_iff in Hh. rewrite Hh.
     destruct (alookup g_kty m) as [[| | | |s| |]|]; try discriminate;
-      destruct (alookup g_bytes m) as [[| |z| | | |]|]; try discriminate; unfold g_other; try rewrite A1; cbn [negb];
-      try (replace (negb (z =? 0)%Z && negb (z =? g_alg2len tb a)%Z) with false by lia);
-      try (change ((0 =? 0)%Z) with true; cbn [negb andb]);
+      destruct (alookup g_bytes m) as [[| |z| | | |]|] eqn:B; try discriminate; unfold g_other, g_has; cbn [lookup];
+      rewrite ?B; try rewrite A1; cbn [negb andb];
+      try (replace (negb (z =? g_alg2len tb a)%Z) with false by lia);
       apply g_set2_some; reflexivity.
   - destruct (alookup a tb) as [grp|] eqn:G; [|discriminate].
     apply andb_true_iff in H as [A1 A2]. rewrite !g_opt_s_lookup by exact O.
@@ -1872,7 +1852,7 @@ Section Converse.
   (* the generators deliver: enough random octets, a key with non-zero members for every request mkrsa
      lets through, a key with non-zero members that fit the field width for every curve *)
   Hypothesis rand_enough : (N.to_nat keymax <= length (x_rand X))%nat.
-  Hypothesis rsa_delivers : forall bits e, (2048 <= bits)%Z -> g_check_public_exponent e = true ->
+  Hypothesis rsa_delivers : forall bits e, (2048 <= bits <= g_rsa_max_bits)%Z -> g_check_public_exponent e = true ->
     exists rk, x_rsa X bits e = Some rk /\ Forall (fun mx => snd mx <> 0) (g_rsa_fields rk).
   Hypothesis ec_delivers : forall c,
     exists ek, x_ec X c = Some ek /\
@@ -1899,7 +1879,7 @@ Section Converse.
     intros T ND R NM. pose proof (g_req_s_obj _ _ _ T) as O.
     unfold g_make_execute, g_make_handles. rewrite T. cbn [g_make_kty]. rewrite bytes_eqb_refl. cbn [negb].
     unfold g_mkrsa. rewrite R. destruct (g_rsa_request_ok _ _ _ R) as [Rb Ce].
-    destruct (rsa_delivers bits e (proj1 Rb) Ce) as (rk & G & NZ). rewrite G.
+    destruct (rsa_delivers bits e Rb Ce) as (rk & G & NZ). rewrite G.
     unfold g_rsa_fields in NZ.
     repeat match goal with H : Forall _ (_ :: _) |- _ => inversion H; clear H; subst end. cbn [snd] in *.
     unfold g_from_rsa, g_pack.
@@ -1985,7 +1965,7 @@ Section ConverseThm.
   Variable X : g_ext.
   Hypothesis rand_wf : wf_bytes (x_rand X).
   Hypothesis rand_enough : (N.to_nat keymax <= length (x_rand X))%nat.
-  Hypothesis rsa_delivers : forall bits e, (2048 <= bits)%Z -> g_check_public_exponent e = true ->
+  Hypothesis rsa_delivers : forall bits e, (2048 <= bits <= g_rsa_max_bits)%Z -> g_check_public_exponent e = true ->
     exists rk, x_rsa X bits e = Some rk /\ Forall (fun mx => snd mx <> 0) (g_rsa_fields rk).
   Hypothesis ec_delivers : forall c,
     exists ek, x_ec X c = Some ek /\
@@ -2073,11 +2053,22 @@ Section ConverseThm.
       - apply F1. apply NT. left. simpl in *. tauto.
       - destruct h; cbn [make_touched]; unfold rsa_touched, oct_touched, ec_touched, g_rsa_members, g_ec_members; simpl in *;
           intuition (subst; discriminate). }
-    destruct (post_some j2 (g_make_kty h)) as [k Q].
-    - rewrite (g_opt_s_congr g_alg t j2 O O2) by (apply AU; simpl; auto). exact A.
-    - rewrite (g_opt_s_congr g_use t j2 O O2) by (apply AU; simpl; auto). exact U.
-    - exact K2.
-    - intros j' Fj. destruct h; cbn [g_make_kty].
+    destruct (g_del_present_some g_bytes j2 O2) as [j3 D1].
+    destruct (g_del_present_spec _ _ _ D1 O2 ND2) as (O3 & ND3 & _ & F3).
+    destruct (g_del_present_some g_bits j3 O3) as [j4 D2].
+    destruct (g_del_present_spec _ _ _ D2 O3 ND3) as (O4 & ND4 & _ & F4).
+    assert (F42 : forall key, key <> g_bytes -> key <> g_bits -> lookup key j4 = lookup key j2).
+    { intros key N1 N2. rewrite F4 by congruence. apply F3. congruence. }
+    destruct (post_some j4 (g_make_kty h)) as [k Q].
+    - rewrite (g_opt_s_congr g_alg j2 j4 O2 O4) by (apply F42; discriminate).
+      rewrite (g_opt_s_congr g_alg t j2 O O2) by (apply AU; simpl; auto). exact A.
+    - rewrite (g_opt_s_congr g_use j2 j4 O2 O4) by (apply F42; discriminate).
+      rewrite (g_opt_s_congr g_use t j2 O O2) by (apply AU; simpl; auto). exact U.
+    - rewrite <- K2. apply g_req_s_congr; try assumption. apply F42; discriminate.
+    - intros j' Fj0.
+      assert (Fj : forall key, key <> g_key_ops -> key <> g_bytes -> key <> g_bits -> lookup key j' = lookup key j2).
+      { intros key N0 N1 N2. rewrite Fj0 by exact N0. apply F42; assumption. }
+      destruct h; cbn [g_make_kty].
       + destruct (make_rsa_inv X _ _ M ND1') as (? & ? & rk & _ & _ & Mem & _).
         destruct (Mem g_n (rk_n rk)) as (jn & Ln & _); [unfold g_rsa_fields; simpl; tauto|].
         destruct (Mem g_e (rk_e rk)) as (je & Le & _); [unfold g_rsa_fields; simpl; tauto|].
@@ -2096,7 +2087,7 @@ Section ConverseThm.
         * change (lookup g_crv j' <> None). rewrite Fj by discriminate. rewrite Lc. discriminate.
         * change (lookup g_x j' <> None). rewrite Fj by discriminate. rewrite Lx. discriminate.
         * change (lookup g_y j' <> None). rewrite Fj by discriminate. rewrite Ly. discriminate.
-    - exists k. unfold jwk_gen. rewrite P, GM. exact Q.
+    - exists k. unfold jwk_gen. rewrite P, GM, D1, D2. exact Q.
   Qed.
 
   (* accepted exactly when the template is a consistent, supported request *)
